@@ -29,4 +29,12 @@ claimed.update({
  "C14": ("decision table for triSign, magnitude-bits analysis at 2^29 (int64 and float mantissa), bounds-accumulator exploration",
          "Decides that triSign is the sign function per cell, that the predicate/measure functions have no wrapped int64 intermediate and no float detour beyond 53 bits at |coord| <= 2^29, that the bounds accumulators start at the right extremes with independent per-axis updates, and IsPositive64/AreaPaths64's definitions. PointInPolygon's crossing walk is not decided.", "DESIGN.md §4 C14", NOTE),
 })
+claimed.update({
+ "C05": ("decision-table extraction for the join/sign/union dispatch + axis-pairing lint + dominance checks",
+         "Decides the join-constructor table, the group-delta sign table and arc direction, the closed-flag and orientation source of NewGroup, the clean-up union's fill rule/reverse table, the sub-unit-delta fast path and X/Y pairing of constructed points. All distance statements are geometric and not decided.", "DESIGN.md §4 C05", NOTE),
+ "C08": ("AST/SSA pattern rules (sign, orientation normaliser, wrap-around constants, no-skip) + entry wiring table",
+         "Decides plus/minus on both axes, the entry flags and NonZero final union, positive-orientation normalisation of every quad, the closed/open wrap constants and that no vertex or segment is skipped. That the quads cover exactly the swept region is not decided.", "DESIGN.md §4 C08", NOTE),
+ "C17": ("forbidden-construct and global-write scan over package and reachable dependency, strict-weak-order tables of comparison closures, sign-mirror of fill-rule arms (AST) and tables",
+         "Decides sentence 1 (bit-identical repeatability) completely modulo the standard library, that sort comparators are strict weak orders, that Negative arms are sign mirrors of Positive arms and that the contribution table ignores polytype for the symmetric clip types. Permutation/rotation/lattice invariance of the region is not decided.", "DESIGN.md §4 C17", NOTE),
+})
 not_applicable = {}
